@@ -129,6 +129,8 @@ type clientRun struct {
 }
 
 func (r *clientRun) handler(ctx mpx.Context, ch mpx.Channel) status.Status {
+	hbAcquire()
+	defer hbRelease()
 	r.active++
 	defer func() { r.active-- }()
 	for {
@@ -295,7 +297,7 @@ func (r *clientRun) main() {
 		for _, op := range p.Server {
 			switch op.Kind {
 			case "sleep":
-				simrt.Sleep(time.Duration(op.Us) * time.Microsecond)
+				hSleep(time.Duration(op.Us) * time.Microsecond)
 			case "down":
 				if r.srvUp {
 					r.stopServer()
@@ -330,8 +332,8 @@ func (r *clientRun) main() {
 	// still take the dial timeout, then at most the 1 s back-off cap, then one healthy dial.
 	if !r.closed {
 		bound := time.Duration(p.Opt.DialTimeoutMs)*time.Millisecond + time.Second + 200*time.Millisecond
-		simrt.Sleep(bound)
-		simrt.WaitQuiescent("client.recovery-settle")
+		hSleep(bound)
+		hWaitQuiescent("client.recovery-settle")
 		if r.closed {
 			// a task closed the client meanwhile
 		} else {
@@ -366,10 +368,10 @@ func (r *clientRun) main() {
 	if _, st := r.cl.Channel(r.bg); st.OK() || st.Code != status.CodeClosed {
 		simrt.Fail("C19-call-after-close", "Channel after Close returned %s", stName(st))
 	}
-	simrt.WaitQuiescent("client.after-close")
+	hWaitQuiescent("client.after-close")
 	dialsAtClose := len(r.dials)
-	simrt.Sleep(5 * time.Second)
-	simrt.WaitQuiescent("client.after-close2")
+	hSleep(5 * time.Second)
+	hWaitQuiescent("client.after-close2")
 	r.probes["dials_after_close"] += int64(len(r.dials) - dialsAtClose)
 	simrt.Recv(0, r.srv.Stop())
 	for _, pr := range r.net.Pairs() {
@@ -378,7 +380,7 @@ func (r *clientRun) main() {
 		}
 	}
 	r.bg.Cancel()
-	simrt.WaitQuiescent("client.teardown")
+	hWaitQuiescent("client.teardown")
 }
 
 // echo performs one channel round trip through the client.
@@ -406,7 +408,7 @@ func (r *clientRun) clientTask(i int, ops []CliOp) {
 	for _, op := range ops {
 		switch op.Kind {
 		case "sleep":
-			simrt.Sleep(time.Duration(op.Us) * time.Microsecond)
+			hSleep(time.Duration(op.Us) * time.Microsecond)
 		case "conn":
 			invokedAfterClose := r.closed
 			conn, st := r.cl.Conn(r.bg)
@@ -433,7 +435,7 @@ func (r *clientRun) clientTask(i int, ops []CliOp) {
 				ch.Receive(r.bg)
 			}
 			if op.Us > 0 {
-				simrt.Sleep(time.Duration(op.Us) * time.Microsecond)
+				hSleep(time.Duration(op.Us) * time.Microsecond)
 			}
 			ch.Free()
 		case "close":
